@@ -2,3 +2,8 @@
 import Arca.Model.Val
 import Arca.Model.Dgraph
 import Arca.Model.RunLoop
+import Arca.Gen.Lifecycle
+import Arca.Gen.Consts
+import Arca.Gen.Skel
+import Arca.Gen.Unknown
+import Arca.Expected.Skel
